@@ -7,7 +7,10 @@ if ! git diff --quiet; then echo "repo not clean"; exit 2; fi
 git apply "$patch" || { echo "patch does not apply"; exit 2; }
 cd /verif
 for p in "$@"; do
+  # evidence must describe the unchanged tree: keep it aside while a seeded change is applied
+  [ -f evidence/$p.json ] && cp evidence/$p.json /verif/out/evidence-$p.keep
   out=$(python3 check.py "$p" --tier ${TIER:-quick} 2>&1); rc=$?
+  [ -f /verif/out/evidence-$p.keep ] && mv /verif/out/evidence-$p.keep evidence/$p.json
   nv=$(echo "$out" | grep -c '^VIOLATION')
   echo "== $p rc=$rc violations=$nv"
   echo "$out" | grep -E '^VIOLATION|KNOWN-FINDING|TOOL-ERROR' | head -${SHOW:-4} | cut -c1-260
